@@ -1,18 +1,743 @@
 /-
-Helper lemmas about `Model/Parse.lean`: the parser monad, and what the cycle-free
-combinators return.
+Helper lemmas about `Model/Parse.lean`: a small program logic for the parser monad
+(`OK m s`: running `m` from `s` either succeeds without growing the token list or fails with
+an error other than `stuck`), the primitives, and the fuel-bounded loops.
 -/
 import WuffsVerif.Model.Parse
 
 namespace WuffsVerif.Parse
 open WuffsVerif.Token WuffsVerif.Gen.C11
 
-/-- `failHere` always fails with an ordinary `parse: … at file:line` error. -/
-theorem failHere_run {α : Type} (s : PState) :
-    ∃ l, (failHere : P α).run s = .error (.at l) := by
-  unfold failHere curLine
+/-- Running `m` from `s`: success never grows the remaining-token list, failure is never the
+model's `stuck` marker. -/
+def OK {α : Type} (m : P α) (s : PState) : Prop :=
+  match m.run s with
+  | .ok (_, s') => s'.src.length ≤ s.src.length
+  | .error e => e ≠ .stuck
+
+/-- As `OK`, but success consumes at least one token. -/
+def OK1 {α : Type} (m : P α) (s : PState) : Prop :=
+  match m.run s with
+  | .ok (_, s') => s'.src.length < s.src.length
+  | .error e => e ≠ .stuck
+
+structure Good {α : Type} (m : P α) : Prop where
+  ok : ∀ s, OK m s
+structure Good1 {α : Type} (m : P α) : Prop where
+  ok1 : ∀ s, OK1 m s
+
+theorem OK1.ok {α : Type} {m : P α} {s : PState} (h : OK1 m s) : OK m s := by
+  unfold OK1 at h; unfold OK
+  cases hr : m.run s with
+  | error e => simp [hr] at h ⊢; exact h
+  | ok p => obtain ⟨a, s'⟩ := p; simp [hr] at h ⊢; omega
+
+theorem Good1.good {α : Type} {m : P α} (h : Good1 m) : Good m := ⟨fun s => (h.ok1 s).ok⟩
+
+theorem ok_pure {α : Type} (a : α) (s : PState) : OK (pure a : P α) s := by
+  simp [OK, StateT.run, pure, StateT.pure, Except.pure]
+
+theorem good_pure {α : Type} (a : α) : Good (pure a : P α) := ⟨fun s => ok_pure a s⟩
+
+/-- Sequencing: `m` from `s`, then `f a` from wherever `m` ended. -/
+theorem ok_bind {α β : Type} {m : P α} {f : α → P β} {s : PState}
+    (hm : OK m s)
+    (hf : ∀ a s', m.run s = .ok (a, s') → OK (f a) s') : OK (m >>= f) s := by
+  unfold OK at hm ⊢
+  simp only [StateT.run, bind, StateT.bind, Except.bind] at hm ⊢
+  cases hr : m s with
+  | error e => simp [hr] at hm ⊢; exact hm
+  | ok p =>
+    obtain ⟨a, s'⟩ := p
+    simp [hr] at hm ⊢
+    have := hf a s' (by simp [StateT.run, hr])
+    unfold OK at this
+    simp only [StateT.run] at this
+    cases hr2 : f a s' with
+    | error e => simp [hr2] at this ⊢; exact this
+    | ok q => obtain ⟨b, s''⟩ := q; simp [hr2] at this ⊢; omega
+
+theorem good_bind {α β : Type} {m : P α} {f : α → P β}
+    (hm : Good m) (hf : ∀ a, Good (f a)) : Good (m >>= f) :=
+  ⟨fun s => ok_bind (hm.ok s) (fun a s' _ => (hf a).ok s')⟩
+
+theorem ok1_bind_left {α β : Type} {m : P α} {f : α → P β} {s : PState}
+    (hm : OK1 m s)
+    (hf : ∀ a s', m.run s = .ok (a, s') → OK (f a) s') : OK1 (m >>= f) s := by
+  unfold OK1 at hm ⊢
+  simp only [StateT.run, bind, StateT.bind, Except.bind] at hm ⊢
+  cases hr : m s with
+  | error e => simp [hr] at hm ⊢; exact hm
+  | ok p =>
+    obtain ⟨a, s'⟩ := p
+    simp [hr] at hm ⊢
+    have := hf a s' (by simp [StateT.run, hr])
+    unfold OK at this
+    simp only [StateT.run] at this
+    cases hr2 : f a s' with
+    | error e => simp [hr2] at this ⊢; exact this
+    | ok q => obtain ⟨b, s''⟩ := q; simp [hr2] at this ⊢; omega
+
+theorem ok1_bind_right {α β : Type} {m : P α} {f : α → P β} {s : PState}
+    (hm : OK m s)
+    (hf : ∀ a s', m.run s = .ok (a, s') → OK1 (f a) s') : OK1 (m >>= f) s := by
+  unfold OK at hm
+  unfold OK1
+  simp only [StateT.run, bind, StateT.bind, Except.bind] at hm ⊢
+  cases hr : m s with
+  | error e => simp [hr] at hm ⊢; exact hm
+  | ok p =>
+    obtain ⟨a, s'⟩ := p
+    simp [hr] at hm ⊢
+    have := hf a s' (by simp [StateT.run, hr])
+    unfold OK1 at this
+    simp only [StateT.run] at this
+    cases hr2 : f a s' with
+    | error e => simp [hr2] at this ⊢; exact this
+    | ok q => obtain ⟨b, s''⟩ := q; simp [hr2] at this ⊢; omega
+
+/-! ## primitives -/
+
+theorem run_get (s : PState) : (get : P PState).run s = .ok (s, s) := rfl
+
+theorem good_get : Good (get : P PState) := ⟨fun s => by
+  simp [OK, run_get, pure, Except.pure]⟩
+
+theorem good1_failHere {α : Type} : Good1 (failHere : P α) := ⟨fun s => by
+  unfold OK1 failHere curLine
   cases h : s.src <;> simp [StateT.run, bind, StateT.bind, get, getThe, MonadStateOf.get, StateT.get,
-    pure, StateT.pure, Except.bind, Except.pure, throw, throwThe, MonadExceptOf.throw, StateT.lift,
-    liftM, monadLift, MonadLift.monadLift, h]
+    pure, StateT.pure, Except.bind, Except.pure, throw, throwThe, MonadExceptOf.throw, StateT.lift, h]⟩
+
+theorem good1_throw_at {α : Type} (l : Nat) : Good1 (throw (.at l) : P α) := ⟨fun s => by
+  simp [OK1, StateT.run, throw, throwThe, MonadExceptOf.throw, StateT.lift, bind, Except.bind]⟩
+
+theorem good1_throw_internal {α : Type} : Good1 (throw .internal : P α) := ⟨fun s => by
+  simp [OK1, StateT.run, throw, throwThe, MonadExceptOf.throw, StateT.lift, bind, Except.bind]⟩
+
+theorem run_peek1 (s : PState) : ∃ x, (peek1 : P Nat).run s = .ok (x, s) ∧
+    (x ≠ 0 → s.src ≠ []) := by
+  unfold peek1
+  cases h : s.src with
+  | nil => exact ⟨0, by simp [StateT.run, bind, StateT.bind, get, getThe, MonadStateOf.get,
+      StateT.get, pure, StateT.pure, Except.bind, Except.pure, h], by simp⟩
+  | cons t rest => exact ⟨t.id, by simp [StateT.run, bind, StateT.bind, get, getThe,
+      MonadStateOf.get, StateT.get, pure, StateT.pure, Except.bind, Except.pure, h], by simp⟩
+
+theorem good_peek1 : Good peek1 := ⟨fun s => by
+  obtain ⟨x, hx, _⟩ := run_peek1 s
+  simp [OK, hx]⟩
+
+theorem run_curLine (s : PState) : ∃ x, (curLine : P Nat).run s = .ok (x, s) := by
+  unfold curLine
+  cases h : s.src <;> simp [StateT.run, bind, StateT.bind, get, getThe, MonadStateOf.get,
+      StateT.get, pure, StateT.pure, Except.bind, Except.pure, h]
+
+theorem good_curLine : Good curLine := ⟨fun s => by
+  obtain ⟨x, hx⟩ := run_curLine s
+  simp [OK, hx]⟩
+
+theorem run_remaining (s : PState) : (remaining : P Nat).run s = .ok (s.src.length, s) := by
+  simp [remaining, StateT.run, bind, StateT.bind, get, getThe, MonadStateOf.get,
+      StateT.get, pure, StateT.pure, Except.bind, Except.pure]
+
+theorem good_remaining : Good remaining := ⟨fun s => by simp [OK, run_remaining]⟩
+
+theorem run_skip (s : PState) : (skip : P Unit).run s = .ok ((), { s with src := s.src.drop 1 }) := by
+  simp [skip, StateT.run, modify, modifyGet, MonadStateOf.modifyGet, StateT.modifyGet, pure,
+    Except.pure]
+
+theorem good_skip : Good skip := ⟨fun s => by
+  simp [OK, run_skip]⟩
+
+/-- `skip` on a non-empty source consumes a token. -/
+theorem ok1_skip (s : PState) (h : s.src ≠ []) : OK1 skip s := by
+  simp only [OK1, run_skip]
+  cases hs : s.src with
+  | nil => exact absurd hs h
+  | cons t rest => simp
+
+/-- `expect id` for a real (non-zero) token id consumes it. -/
+theorem good1_expect (id : Nat) (hid : id ≠ 0) : Good1 (expect id) := ⟨fun s => by
+  unfold expect
+  obtain ⟨x, hx, hne⟩ := run_peek1 s
+  apply ok1_bind_right (good_peek1.ok s)
+  intro a s' hrun
+  rw [hx] at hrun
+  simp at hrun
+  obtain ⟨ha, hs⟩ := hrun
+  subst ha; subst hs
+  split
+  · rename_i heq
+    have : x = id := by simpa using heq
+    exact ok1_skip s (hne (by omega))
+  · exact good1_failHere.ok1 s⟩
+
+end WuffsVerif.Parse
+
+namespace WuffsVerif.Parse
+open WuffsVerif.Token WuffsVerif.Gen.C11
+
+theorem good_modify (f : PState → PState) (h : ∀ s, (f s).src = s.src) :
+    Good (modify f : P Unit) := ⟨fun s => by
+  simp [OK, StateT.run, modify, modifyGet, MonadStateOf.modifyGet, StateT.modifyGet, pure,
+    Except.pure, h]⟩
+
+theorem good_set_same (s0 : PState) (f : PState → PState) (h : (f s0).src = s0.src) :
+    OK (set (f s0) : P Unit) s0 := by
+  simp [OK, StateT.run, set, MonadStateOf.set, StateT.set, pure, Except.pure, h]
+
+/-- Extensible leaf rule set for `good_auto`. -/
+syntax "good_leaf" : tactic
+macro_rules | `(tactic| good_leaf) => `(tactic| assumption)
+macro_rules | `(tactic| good_leaf) => `(tactic| exact good_pure _)
+macro_rules | `(tactic| good_leaf) => `(tactic| exact good1_failHere.good)
+macro_rules | `(tactic| good_leaf) => `(tactic| exact good1_throw_internal.good)
+macro_rules | `(tactic| good_leaf) => `(tactic| exact (good1_throw_at _).good)
+macro_rules | `(tactic| good_leaf) => `(tactic| exact good_peek1)
+macro_rules | `(tactic| good_leaf) => `(tactic| exact good_get)
+macro_rules | `(tactic| good_leaf) => `(tactic| exact good_skip)
+macro_rules | `(tactic| good_leaf) => `(tactic| exact good_curLine)
+macro_rules | `(tactic| good_leaf) => `(tactic| exact good_remaining)
+macro_rules | `(tactic| good_leaf) => `(tactic| exact (good1_expect _ (by decide)).good)
+macro_rules | `(tactic| good_leaf) => `(tactic| (apply Good1.good; assumption))
+macro_rules | `(tactic| good_leaf) => `(tactic| (apply good_modify; intro _; rfl))
+
+/-- Closes `Good _` goals for straight-line monadic code built from the primitives, the
+hypotheses in the context and already proved `Good` lemmas. -/
+syntax "good_auto" : tactic
+macro_rules
+  | `(tactic| good_auto) => `(tactic| repeat' (first
+      | good_leaf
+      | apply good_bind
+      | intro _
+      | split
+      | (show Good _; dsimp only)))
+
+theorem good1_parseIdent (env : Env) : Good1 (parseIdent env) := ⟨fun s => by
+  unfold parseIdent
+  apply ok1_bind_right (good_get.ok s)
+  intro a s' hrun
+  rw [run_get] at hrun
+  simp [pure, Except.pure] at hrun
+  obtain ⟨ha, hs⟩ := hrun
+  subst ha; subst hs
+  split
+  · exact good1_failHere.ok1 s
+  · rename_i t rest hsrc
+    split
+    · exact good1_failHere.ok1 s
+    · apply ok1_bind_left (ok1_skip s (by simp [hsrc]))
+      intro _ _ _
+      exact ok_pure _ _⟩
+
+theorem good_parseIdent (env : Env) : Good (parseIdent env) := (good1_parseIdent env).good
+
+theorem good1_bind_left {α β : Type} {m : P α} {f : α → P β}
+    (hm : Good1 m) (hf : ∀ a, Good (f a)) : Good1 (m >>= f) :=
+  ⟨fun s => ok1_bind_left (hm.ok1 s) (fun a s' _ => (hf a).ok s')⟩
+
+theorem good1_bind_right {α β : Type} {m : P α} {f : α → P β}
+    (hm : Good m) (hf : ∀ a, Good1 (f a)) : Good1 (m >>= f) :=
+  ⟨fun s => ok1_bind_right (hm.ok s) (fun a s' _ => (hf a).ok1 s')⟩
+
+theorem good1_parseQualifiedIdent (env : Env) : Good1 (parseQualifiedIdent env) := by
+  unfold parseQualifiedIdent
+  apply good1_bind_left (good1_parseIdent env)
+  intro x
+  have hid := good_parseIdent env
+  good_auto
+
+theorem good_parseLabel (env : Env) : Good (parseLabel env) := by
+  unfold parseLabel
+  have hid := good_parseIdent env
+  good_auto
+
+theorem good_parseEffect : Good parseEffect := by
+  unfold parseEffect
+  good_auto
+
+end WuffsVerif.Parse
+
+namespace WuffsVerif.Parse
+open WuffsVerif.Token WuffsVerif.Gen.C11
+
+theorem OK.le {α : Type} {m : P α} {s s' : PState} {a : α} (h : OK m s)
+    (hrun : m.run s = .ok (a, s')) : s'.src.length ≤ s.src.length := by
+  unfold OK at h; rw [hrun] at h; exact h
+
+theorem run_peek1_eq {s s' : PState} {x : Nat} (h : (peek1 : P Nat).run s = .ok (x, s')) :
+    s' = s ∧ (x ≠ 0 → s.src ≠ []) := by
+  obtain ⟨y, hy, hne⟩ := run_peek1 s
+  rw [hy] at h
+  simp at h
+  obtain ⟨h1, h2⟩ := h
+  subst h1; subst h2
+  exact ⟨rfl, hne⟩
+
+theorem run_skip_eq {s s' : PState} {u : Unit} (h : (skip : P Unit).run s = .ok (u, s')) :
+    s'.src = s.src.drop 1 := by
+  rw [run_skip] at h
+  simp at h
+  subst h
+  simp
+
+theorem run_get_eq {s s' a : PState} (h : (get : P PState).run s = .ok (a, s')) :
+    a = s ∧ s' = s := by
+  rw [run_get] at h
+  simp [pure, Except.pure] at h
+  exact ⟨h.1.symm, h.2.symm⟩
+
+/-- The `parseList` loop never runs out of fuel when started with more fuel than tokens:
+every further iteration has consumed the separating comma. -/
+theorem ok_parseListLoop (env : Env) (stop : Nat) (elem : P Node) (hel : Good elem) :
+    ∀ fuel acc s, s.src.length < fuel → OK (parseListLoop env stop elem fuel acc) s := by
+  intro fuel
+  induction fuel with
+  | zero => intro acc s h; omega
+  | succ fuel ih =>
+    intro acc s hfuel
+    unfold parseListLoop
+    apply ok_bind (good_get.ok s)
+    intro s0 s' hrun
+    obtain ⟨h1, h2⟩ := run_get_eq hrun
+    subst h1; subst h2
+    split
+    · exact good1_failHere.good.ok _
+    · split
+      · exact (by good_auto : Good _).ok _
+      · split
+        · exact (by good_auto : Good _).ok _
+        · apply ok_bind (hel.ok _)
+          intro e s1 hrun1
+          have hle1 := (hel.ok _).le hrun1
+          apply ok_bind (good_peek1.ok _)
+          intro x s2 hrun2
+          obtain ⟨hs2, hne⟩ := run_peek1_eq hrun2
+          subst hs2
+          split
+          · exact (by good_auto : Good _).ok _
+          · split
+            · rename_i hcomma
+              have hx : x = IDComma := by simpa using hcomma
+              have hne' : s2.src ≠ [] := hne (by rw [hx]; decide)
+              apply ok_bind (good_skip.ok _)
+              intro u s3 hrun3
+              have hs3 := run_skip_eq hrun3
+              apply ih
+              rw [hs3]
+              cases hsrc : s2.src with
+              | nil => exact absurd hsrc hne'
+              | cons t rest =>
+                rw [hsrc] at hle1
+                simp at hle1 ⊢
+                omega
+            · exact good1_failHere.good.ok _
+
+theorem good_parseList (env : Env) (stop : Nat) (elem : P Node) (hel : Good elem) :
+    Good (parseList env stop elem) := ⟨fun s => by
+  unfold parseList
+  apply ok_bind ((by good_auto : Good _).ok s)
+  intro _ s1 _
+  apply ok_bind (good_remaining.ok s1)
+  intro n s2 hrun
+  rw [run_remaining] at hrun
+  simp at hrun
+  obtain ⟨hn, hs⟩ := hrun
+  subst hn; subst hs
+  exact ok_parseListLoop env stop elem hel _ _ _ (by omega)⟩
+
+/-- With `stop = )` the list starts with `expect (`, so it consumes a token. -/
+theorem good1_parseList_paren (env : Env) (elem : P Node) (hel : Good elem) :
+    Good1 (parseList env IDCloseParen elem) := ⟨fun s => by
+  unfold parseList
+  have h1 : Good1 (if (IDCloseParen == IDCloseParen) = true then expect IDOpenParen else pure ()) := by
+    simp only [beq_self_eq_true, ite_true]
+    exact good1_expect _ (by decide)
+  apply ok1_bind_left (h1.ok1 s)
+  intro _ s1 _
+  apply ok_bind (good_remaining.ok s1)
+  intro n s2 hrun
+  rw [run_remaining] at hrun
+  simp at hrun
+  obtain ⟨hn, hs⟩ := hrun
+  subst hn; subst hs
+  exact ok_parseListLoop env _ elem hel _ _ _ (by omega)⟩
+
+end WuffsVerif.Parse
+
+namespace WuffsVerif.Parse
+open WuffsVerif.Token WuffsVerif.Gen.C11
+
+macro_rules | `(tactic| good_leaf) => `(tactic| exact good_parseIdent _)
+macro_rules | `(tactic| good_leaf) => `(tactic| exact (good1_parseQualifiedIdent _).good)
+macro_rules | `(tactic| good_leaf) => `(tactic| exact good_parseLabel _)
+macro_rules | `(tactic| good_leaf) => `(tactic| exact good_parseEffect)
+macro_rules | `(tactic| good_leaf) => `(tactic| apply good_parseList)
+
+theorem good1_parseArgNode (env : Env) (pe : P Node) (hpe : Good pe) :
+    Good1 (parseArgNode env pe) := by
+  unfold parseArgNode
+  apply good1_bind_left (good1_parseIdent env)
+  good_auto
+
+theorem good_parseArgNode (env : Env) (pe : P Node) (hpe : Good pe) :
+    Good (parseArgNode env pe) := (good1_parseArgNode env pe hpe).good
+
+macro_rules | `(tactic| good_leaf) => `(tactic| apply good_parseArgNode)
+
+theorem good1_parseBracket (sep : Nat) (pe : P Node) (hpe : Good pe) :
+    Good1 (parseBracket sep pe) := by
+  unfold parseBracket
+  apply good1_bind_left (good1_expect _ (by decide))
+  good_auto
+
+theorem good_parseBracket (sep : Nat) (pe : P Node) (hpe : Good pe) :
+    Good (parseBracket sep pe) := (good1_parseBracket sep pe hpe).good
+
+macro_rules | `(tactic| good_leaf) => `(tactic| apply good_parseBracket)
+
+theorem good_parseAssertNode (env : Env) (pe : P Node) (hpe : Good pe) :
+    Good (parseAssertNode env pe) := by
+  unfold parseAssertNode
+  good_auto
+
+macro_rules | `(tactic| good_leaf) => `(tactic| apply good_parseAssertNode)
+
+theorem good_assertsSorted (l : List Node) (c : Bool) : Good (assertsSorted l c) := by
+  unfold assertsSorted
+  good_auto
+
+macro_rules | `(tactic| good_leaf) => `(tactic| exact good_assertsSorted _ _)
+
+theorem good_parseAsserts (env : Env) (pe : P Node) (hpe : Good pe) :
+    Good (parseAsserts env pe) := by
+  unfold parseAsserts
+  good_auto
+
+macro_rules | `(tactic| good_leaf) => `(tactic| apply good_parseAsserts)
+
+end WuffsVerif.Parse
+
+namespace WuffsVerif.Parse
+open WuffsVerif.Token WuffsVerif.Gen.C11
+
+theorem length_drop_one_lt {α : Type} (l : List α) (h : l ≠ []) : (l.drop 1).length < l.length := by
+  cases l with
+  | nil => exact absurd rfl h
+  | cons a r => simp
+
+/-- The associative-operator loop of `parseExpr1`: each further iteration consumed the operator. -/
+theorem ok_assocLoop (pOp : P Node) (hop : Good pOp) (x : Nat) (hx : x ≠ 0) :
+    ∀ fuel acc s, s.src.length < fuel → OK (assocLoop pOp x fuel acc) s := by
+  intro fuel
+  induction fuel with
+  | zero => intro acc s h; omega
+  | succ fuel ih =>
+    intro acc s hfuel
+    unfold assocLoop
+    apply ok_bind (good_peek1.ok s)
+    intro y s1 hrun1
+    obtain ⟨hs1, hne⟩ := run_peek1_eq hrun1
+    subst hs1
+    split
+    · rename_i heq
+      have hy : y = x := by simpa using heq
+      have hne' : s1.src ≠ [] := hne (by omega)
+      apply ok_bind (good_skip.ok _)
+      intro u s2 hrun2
+      have hs2 := run_skip_eq hrun2
+      have hlt : s2.src.length < s1.src.length := by rw [hs2]; exact length_drop_one_lt _ hne'
+      apply ok_bind (hop.ok _)
+      intro arg s3 hrun3
+      have hle3 := (hop.ok _).le hrun3
+      apply ih
+      omega
+    · exact ok_pure _ _
+
+/-- The postfix loop of `parseOperand`: every iteration consumes `(`/`!`/`?`, `[` or `.`. -/
+theorem ok_operandLoop (env : Env) (pe : P Node) (hpe : Good pe) :
+    ∀ fuel first lhs s, s.src.length < fuel → OK (operandLoop env pe fuel first lhs) s := by
+  intro fuel
+  induction fuel with
+  | zero => intro first lhs s h; omega
+  | succ fuel ih =>
+    intro first lhs s hfuel
+    unfold operandLoop
+    apply ok_bind (good_peek1.ok s)
+    intro x s1 hrun1
+    obtain ⟨hs1, hne⟩ := run_peek1_eq hrun1
+    subst hs1
+    split
+    · -- call
+      have hfl : Good (if (x == IDOpenParen) = true then (pure 0 : P Nat) else parseEffect) := by good_auto
+      apply ok_bind (hfl.ok _)
+      intro flags s2 hrun2
+      have hle2 := (hfl.ok _).le hrun2
+      have hg1 := good1_parseList_paren env (parseArgNode env pe) (good_parseArgNode env pe hpe)
+      have h3 := hg1.ok1 s2
+      apply ok_bind h3.ok
+      intro args s3 hrun3
+      have hlt3 : s3.src.length < s2.src.length := by
+        unfold OK1 at h3; rw [hrun3] at h3; exact h3
+      apply ih
+      omega
+    · split
+      · -- index / slice
+        have hg1 := good1_parseBracket IDDotDot pe hpe
+        have h2 := hg1.ok1 s1
+        apply ok_bind h2.ok
+        intro r s2 hrun2
+        have hlt2 : s2.src.length < s1.src.length := by
+          unfold OK1 at h2; rw [hrun2] at h2; exact h2
+        obtain ⟨id0, mhs, rhs⟩ := r
+        apply ih
+        omega
+      · split
+        · -- selector
+          rename_i hdot
+          have hx : x = IDDot := by simpa using hdot
+          have hne' : s1.src ≠ [] := hne (by rw [hx]; decide)
+          apply ok_bind (good_skip.ok _)
+          intro u s2 hrun2
+          have hs2 := run_skip_eq hrun2
+          have hlt : s2.src.length < s1.src.length := by rw [hs2]; exact length_drop_one_lt _ hne'
+          apply ok_bind (good_peek1.ok _)
+          intro sel s3 hrun3
+          obtain ⟨hs3, _⟩ := run_peek1_eq hrun3
+          subst hs3
+          have hsel : Good (if (first && isDQStrLiteral env.tm sel) = true then
+              (do skip; pure sel : P Nat) else parseIdent env) := by good_auto
+          apply ok_bind (hsel.ok _)
+          intro selector s4 hrun4
+          have hle4 := (hsel.ok _).le hrun4
+          apply ih
+          omega
+        · exact ok_pure _ _
+
+/-- The statement loop of `parseBlock`: every statement is followed by a consumed `;`. -/
+theorem ok_blockLoop (pStmt : P Node) (hst : Good pStmt) (dc : Bool) :
+    ∀ fuel acc s, s.src.length < fuel → OK (blockLoop pStmt dc fuel acc) s := by
+  intro fuel
+  induction fuel with
+  | zero => intro acc s h; omega
+  | succ fuel ih =>
+    intro acc s hfuel
+    unfold blockLoop
+    apply ok_bind (good_get.ok s)
+    intro s0 s' hrun
+    obtain ⟨h1, h2⟩ := run_get_eq hrun
+    subst h1; subst h2
+    split
+    · exact good1_failHere.good.ok _
+    · split
+      · exact (by good_auto : Good _).ok _
+      · apply ok_bind (hst.ok _)
+        intro st s1 hrun1
+        have hle1 := (hst.ok _).le hrun1
+        have h2 := (good1_expect IDSemicolon (by decide)).ok1 s1
+        apply ok_bind h2.ok
+        intro u s2 hrun2
+        have hlt2 : s2.src.length < s1.src.length := by
+          unfold OK1 at h2; rw [hrun2] at h2; exact h2
+        apply ih
+        omega
+
+end WuffsVerif.Parse
+
+namespace WuffsVerif.Parse
+open WuffsVerif.Token WuffsVerif.Gen.C11
+
+theorem isBinaryOp_ne_zero (x : Nat) (h : isBinaryOp x = true) : x ≠ 0 := by
+  unfold isBinaryOp at h
+  simp only [Bool.and_eq_true, decide_eq_true_eq] at h
+  have : minOp ≤ x := h.1.1
+  simp [minOp] at this
+  omega
+
+theorem good_assocAll (pOp : P Node) (hop : Good pOp) (x : Nat) (hx : x ≠ 0) (acc : List Node) :
+    Good (assocAll pOp x acc) := ⟨fun s => by
+  unfold assocAll
+  apply ok_bind (good_remaining.ok s)
+  intro n s2 hrun
+  rw [run_remaining] at hrun
+  simp at hrun
+  obtain ⟨hn, hs⟩ := hrun
+  subst hn; subst hs
+  exact ok_assocLoop pOp hop x hx _ _ _ (by omega)⟩
+
+theorem good_operandAll (env : Env) (pe : P Node) (hpe : Good pe) (lhs : Node) :
+    Good (operandAll env pe lhs) := ⟨fun s => by
+  unfold operandAll
+  apply ok_bind (good_remaining.ok s)
+  intro n s2 hrun
+  rw [run_remaining] at hrun
+  simp at hrun
+  obtain ⟨hn, hs⟩ := hrun
+  subst hn; subst hs
+  exact ok_operandLoop env pe hpe _ _ _ _ (by omega)⟩
+
+theorem good_blockAll (pStmt : P Node) (hst : Good pStmt) (dc : Bool) :
+    Good (blockAll pStmt dc) := ⟨fun s => by
+  unfold blockAll
+  apply ok_bind (good_remaining.ok s)
+  intro n s2 hrun
+  rw [run_remaining] at hrun
+  simp at hrun
+  obtain ⟨hn, hs⟩ := hrun
+  subst hn; subst hs
+  exact ok_blockLoop pStmt hst dc _ _ _ (by omega)⟩
+
+macro_rules | `(tactic| good_leaf) => `(tactic| apply good_operandAll)
+macro_rules | `(tactic| good_leaf) => `(tactic| apply good_blockAll)
+macro_rules | `(tactic| good_leaf) => `(tactic| (apply good_assocAll; assumption; (apply isBinaryOp_ne_zero; assumption)))
+
+/-- The five functions of the expression cycle, at given depth budgets. -/
+structure CoreGood (env : Env) (e t b : Nat) : Prop where
+  expr : Good (pExpr env e t b)
+  typeExpr : Good (pTypeExpr env e t b)
+  possibleList : Good (pPossibleList env e t b)
+  operand : Good (pOperand env e t b)
+  expr1 : Good (pExpr1 env e t b)
+
+set_option maxRecDepth 8192 in
+theorem core_step (env : Env) (e t b : Nat)
+    (ih : ∀ e' t' b', e' + t' + b' < e + t + b → CoreGood env e' t' b') : CoreGood env e t b := by
+  have hExpr : Good (pExpr env e t b) := by
+    cases e with
+    | zero => unfold pExpr; exact good1_failHere.good
+    | succ e' =>
+      have h1 := (ih e' t b (by omega)).expr1
+      unfold pExpr
+      good_auto
+  have hType : Good (pTypeExpr env e t b) := by
+    cases t with
+    | zero => unfold pTypeExpr; exact good1_failHere.good
+    | succ t' =>
+      have h1 := (ih e t' b (by omega)).typeExpr
+      have h2 := (ih e t' b (by omega)).expr
+      unfold pTypeExpr
+      good_auto
+  have hPoss : Good (pPossibleList env e t b) := by
+    cases e with
+    | zero => unfold pPossibleList; good_auto
+    | succ e' =>
+      have h1 := (ih e' t b (by omega)).possibleList
+      unfold pPossibleList
+      good_auto
+  have hOperand : Good (pOperand env e t b) := by
+    cases e with
+    | zero => unfold pOperand; good_auto
+    | succ e' =>
+      have h1 := (ih e' t b (by omega)).operand
+      unfold pOperand
+      good_auto
+  have hExpr1 : Good (pExpr1 env e t b) := by
+    unfold pExpr1
+    good_auto
+  exact ⟨hExpr, hType, hPoss, hOperand, hExpr1⟩
+
+theorem core_good (env : Env) : ∀ n e t b, e + t + b = n → CoreGood env e t b := by
+  intro n
+  induction n using Nat.strongRecOn with
+  | _ n ih =>
+    intro e t b h
+    apply core_step
+    intro e' t' b' hlt
+    exact ih (e' + t' + b') (by omega) e' t' b' rfl
+
+end WuffsVerif.Parse
+
+namespace WuffsVerif.Parse
+open WuffsVerif.Token WuffsVerif.Gen.C11
+
+/-! ## statements -/
+
+attribute [local irreducible] checkAssignLHS terminatesList typeInnermost stripArrays
+  asSmallPositiveInt256 isChooseCPUArch validConstName containsDoubleUnderscore isStatusMessageTok
+
+macro_rules | `(tactic| good_leaf) => `(tactic| apply_assumption)
+
+theorem good_loopsPush (label : Nat) : Good (loopsPush label) := by
+  unfold loopsPush; good_auto
+
+theorem good_loopsPop : Good loopsPop := by
+  unfold loopsPop; good_auto
+
+theorem good_parseJump (env : Env) (x : Nat) : Good (parseJump env x) := by
+  unfold parseJump; good_auto
+
+theorem good_parseAssignNode (env : Env) (pe : P Node) (hpe : Good pe) :
+    Good (parseAssignNode env pe) := by
+  unfold parseAssignNode; good_auto
+
+theorem good_parseIterateAssignNode (env : Env) (pe : P Node) (hpe : Good pe) :
+    Good (parseIterateAssignNode env pe) := by
+  have := good_parseAssignNode env pe hpe
+  unfold parseIterateAssignNode; good_auto
+
+theorem good_parseVarNode (env : Env) (pt : P Node) (hpt : Good pt) :
+    Good (parseVarNode env pt) := by
+  unfold parseVarNode; good_auto
+
+theorem good_parseIterateHeader (env : Env) : Good (parseIterateHeader env) := by
+  unfold parseIterateHeader; good_auto
+
+macro_rules | `(tactic| good_leaf) => `(tactic| exact good_loopsPush _)
+macro_rules | `(tactic| good_leaf) => `(tactic| exact good_loopsPop)
+macro_rules | `(tactic| good_leaf) => `(tactic| exact good_parseJump _ _)
+macro_rules | `(tactic| good_leaf) => `(tactic| apply good_parseAssignNode)
+macro_rules | `(tactic| good_leaf) => `(tactic| apply good_parseIterateAssignNode)
+macro_rules | `(tactic| good_leaf) => `(tactic| apply good_parseVarNode)
+macro_rules | `(tactic| good_leaf) => `(tactic| exact good_parseIterateHeader _)
+
+/-- The five functions of the statement cycle, at a given body-depth budget. -/
+structure StmtGood (env : Env) (e t b : Nat) : Prop where
+  block : ∀ dc, Good (pBlock env e t b dc)
+  pif : Good (pIf env e t b)
+  iterateBlock : ∀ label assigns, Good (pIterateBlock env e t b label assigns)
+  statement1 : Good (pStatement1 env e t b)
+  statement : Good (pStatement env e t b)
+
+set_option maxRecDepth 16384 in
+theorem stmt_step (env : Env) (e t b : Nat)
+    (ih : ∀ b', b' < b → StmtGood env e t b') : StmtGood env e t b := by
+  have hc := core_good env _ e t b rfl
+  have hE := hc.expr
+  have hT := hc.typeExpr
+  have hBlock : ∀ dc, Good (pBlock env e t b dc) := by
+    intro dc
+    cases b with
+    | zero => unfold pBlock; exact good1_failHere.good
+    | succ b' =>
+      have h1 := (ih b' (by omega)).statement
+      unfold pBlock
+      good_auto
+  have hIf : Good (pIf env e t b) := by
+    cases b with
+    | zero => unfold pIf; good_auto
+    | succ b' =>
+      have h1 := (ih b' (by omega)).pif
+      unfold pIf
+      good_auto
+  have hIter : ∀ label assigns, Good (pIterateBlock env e t b label assigns) := by
+    intro label assigns
+    cases b with
+    | zero => unfold pIterateBlock; good_auto
+    | succ b' =>
+      have h1 := (ih b' (by omega)).iterateBlock
+      unfold pIterateBlock
+      good_auto
+  have hS1 : Good (pStatement1 env e t b) := by
+    unfold pStatement1
+    good_auto
+  have hS : Good (pStatement env e t b) := by
+    unfold pStatement
+    good_auto
+  exact ⟨hBlock, hIf, hIter, hS1, hS⟩
+
+theorem stmt_good (env : Env) (e t : Nat) : ∀ b, StmtGood env e t b := by
+  intro b
+  induction b using Nat.strongRecOn with
+  | _ b ih => exact stmt_step env e t b ih
 
 end WuffsVerif.Parse
